@@ -53,6 +53,8 @@ NO_PANIC_EXACT = {
     "digest::CtOutput::<T>::into_bytes", "digest::generic_array::GenericArray::<T, N>::as_slice",
     "std::array::<impl [T; N]>::as_slice", "std::array::<impl [T; N]>::as_mut_slice",
     "std::array::<impl std::convert::AsMut<[T]> for [T; N]>::as_mut", "core::array::<impl std::convert::AsMut<[T]> for [T; N]>::as_mut",
+    "std::string::String::as_str", "std::string::String::as_bytes", "<std::string::String as std::ops::Deref>::deref", "<std::string::String as std::convert::AsRef<str>>::as_ref",
+    "std::slice::from_mut", "core::slice::from_mut", "std::slice::from_ref", "core::slice::from_ref",
     "std::iter::from_fn", "core::iter::from_fn", "std::iter::Iterator::take", "<std::iter::Take<I> as std::iter::Iterator>::for_each", "std::mem::drop", "core::mem::drop",
     "std::array::equality::<impl std::cmp::PartialEq<[U; N]> for [T; N]>::eq", "std::array::equality::<impl std::cmp::PartialEq<[U; N]> for [T; N]>::ne",
     "std::cmp::PartialEq::ne", "std::cmp::PartialEq::eq",
@@ -362,7 +364,7 @@ def call_obligation(ctx, rep, world, pr, p, b, bi, t, info, n_site, r32_sinks):
         src = strip(args[0])
         # the two documented panics: the *self-generated* public key turned out invalid
         if short == "expect" and util.is_call(src) and src[1] in ("srp_internal_client::calculate_client_public_key", "server::SrpVerifier::with_specific_private_key", "srp_internal::calculate_server_public_key"):
-            own_key = util.is_call(strip(src[2][0]), "key::PrivateKey::randomized") or util.is_call(strip(src[2][1]) if len(src[2]) > 1 else ("x",), "key::PrivateKey::randomized") or (strip(src[2][0])[0] == "param" and p.startswith("client::SrpClientChallenge::")) or (len(src[2]) > 1 and strip(src[2][1])[0] == "param" and p.startswith("server::SrpVerifier::"))
+            own_key = util.fresh(ctx, canon(ctx, se, src[2][0]))[0] or util.is_call(strip(src[2][0]), "key::PrivateKey::randomized") or util.is_call(strip(src[2][1]) if len(src[2]) > 1 else ("x",), "key::PrivateKey::randomized") or (strip(src[2][0])[0] == "param" and p.startswith("client::SrpClientChallenge::")) or (len(src[2]) > 1 and strip(src[2][1])[0] == "param" and p.startswith("server::SrpVerifier::"))
             if own_key:
                 rep.ok("unwrap", p, role, "excluded by the property: documented panic on an invalid self-generated public key", b.loc(bi))
                 return
